@@ -754,6 +754,146 @@ Proof.
   intro m. apply pool_run_resolve.
 Qed.
 
+
+(* ------------------------------------------------------------------ rendering reads only declared, assigned fields *)
+Definition pool_ctx_full (c : pool_ctx) : Prop := pool_touch c ctx_fields_read_by_render = true.
+
+Lemma pool_touch_memb c l f : pool_touch c l = true -> pool_memb f l = true -> exists v, pool_cget c f = Some v.
+Proof.
+  induction l as [|a r IH]; simpl; [discriminate|]. intros Ht Hm.
+  destruct (pool_cget c a) as [v|] eqn:E; [|discriminate].
+  apply orb_true_iff in Hm. destruct Hm as [Hm|Hm].
+  - apply bytes_eqb_eq in Hm. subst a. exists v. exact E.
+  - apply IH; assumption.
+Qed.
+
+Lemma pool_touch_all c l : (forall f, pool_memb f l = true -> exists v, pool_cget c f = Some v) -> pool_touch c l = true.
+Proof.
+  induction l as [|a r IH]; intro H; simpl; [reflexivity|].
+  destruct (H a) as [v Hv]; [simpl; rewrite bytes_eqb_refl; reflexivity|]. rewrite Hv.
+  apply IH. intros f Hf. apply H. simpl. rewrite Hf. apply orb_true_r.
+Qed.
+
+Lemma pool_touch_sub c l l' : pool_touch c l = true -> forallb (fun f => pool_memb f l) l' = true -> pool_touch c l' = true.
+Proof.
+  intros Ht Hs. apply pool_touch_all. intros f Hf. eapply pool_touch_memb; [exact Ht|].
+  rewrite forallb_forall in Hs. apply Hs. apply pool_memb_in. exact Hf.
+Qed.
+
+Lemma pool_full_touch c l : pool_ctx_full c -> forallb (fun f => pool_memb f ctx_fields_read_by_render) l = true -> pool_touch c l = true.
+Proof. intros H Hs. eapply pool_touch_sub; eassumption. Qed.
+
+Lemma pool_cget_cset c f v f' : pool_cget (pool_cset c f v) f' = if bytes_eqb f f' then Some v else pool_cget c f'.
+Proof. unfold pool_cget, pool_cset. simpl. destruct (bytes_eqb f f'); reflexivity. Qed.
+
+Lemma pool_full_cset c f v : pool_ctx_full c -> pool_ctx_full (pool_cset c f v).
+Proof.
+  intro H. apply pool_touch_all. intros f' Hf'. rewrite pool_cget_cset.
+  destruct (bytes_eqb f f'); [eexists; reflexivity|]. eapply pool_touch_memb; eassumption.
+Qed.
+
+Lemma pool_assoc_map_self (h : bytes -> option pool_fval) l f :
+  pool_memb f l = true -> assoc_bytes (map (fun x => (x, h x)) l) f = Some (h f).
+Proof.
+  induction l as [|a r IH]; simpl; [discriminate|]. intro Hm.
+  destruct (bytes_eqb a f) eqn:E.
+  - apply bytes_eqb_eq in E. subst a. reflexivity.
+  - simpl in Hm. apply IH. exact Hm.
+Qed.
+
+Lemma pool_full_acquire reset init g :
+  forallb (fun f => pool_memb f reset) ctx_fields_read_by_render = true -> pool_ctx_full (pool_acquire reset init g).
+Proof.
+  intro H. apply pool_touch_all. intros f Hf. unfold pool_cget, pool_acquire.
+  rewrite (pool_assoc_map_self (fun f0 => if pool_memb f0 reset then Some (init f0) else g f0) _ f Hf).
+  rewrite forallb_forall in H. rewrite (H f (pool_memb_in _ _ Hf)). eexists; reflexivity.
+Qed.
+
+Lemma pool_full_new g vars : pool_ctx_full (pool_ctx_new g vars).
+Proof. apply pool_full_acquire. exact pool_read_fields_in_reset_new. Qed.
+Lemma pool_full_clone g c : pool_ctx_full (pool_ctx_clone g c).
+Proof. apply pool_full_acquire. exact pool_read_fields_in_reset_clone. Qed.
+
+Lemma pool_seq_no_garbage a b : fst a <> PRGarbage -> fst b <> PRGarbage -> fst (pool_seq a b) <> PRGarbage.
+Proof.
+  destruct a as [ra la], b as [rb lb]. simpl. intros Ha Hb.
+  destruct ra; simpl; try assumption; try discriminate. destruct rb; simpl; try assumption; discriminate.
+Qed.
+
+Ltac pool_touch_ok H :=
+  match goal with |- context [pool_touch ?c ?l] => rewrite (pool_full_touch c l H (eq_refl true)); cbn [negb] end.
+
+Lemma pool_eval_no_garbage rv g : (forall n, rv n <> PLBad) ->
+  forall fuel root c ns gas, pool_ctx_full c -> fst (fst (pool_eval fuel rv g root c ns gas)) <> PRGarbage.
+Proof.
+  intro Hrv. induction fuel as [|f IH]; intros root c ns gas Hc; [simpl; discriminate|].
+  cbn [pool_eval]. destruct gas as [|gas0]; [simpl; discriminate|]. destruct root.
+  - pool_touch_ok Hc.
+    assert (Hc1 : pool_ctx_full (pool_cset c b#"blockChain" (FVChain (pool_collect_all ns (pool_defs_of (pool_cget c b#"blockChain")))))) by (apply pool_full_cset; exact Hc).
+    destruct (pool_find_extends ns) as [t|]; [|apply IH; exact Hc1].
+    pool_touch_ok Hc1.
+    destruct (rv t) as [pns|er|] eqn:Et; [|simpl; discriminate|exfalso; exact (Hrv t Et)].
+    match goal with |- context [pool_eval f rv g true ?pc pns gas0] =>
+      assert (Hp := IH true pc pns gas0); destruct (pool_eval f rv g true pc pns gas0) as [[r l] gas1] end.
+    cbn [fst]. apply pool_seq_no_garbage; [simpl; discriminate|].
+    apply Hp. do 4 apply pool_full_cset. apply pool_full_new.
+  - destruct ns as [|[k pl cs] rest]; [simpl; discriminate|].
+    match goal with |- fst (fst (let '(this, gas1) := ?A in _)) <> _ => assert (HA : fst (fst A) <> PRGarbage) end.
+    { destruct (N.eqb k pk_text); [simpl; discriminate|].
+      destruct (N.eqb k pk_var).
+      { destruct (N.eqb (pool_pl pl 1) 0); pool_touch_ok Hc; simpl; discriminate. }
+      destruct (N.eqb k pk_fail); [pool_touch_ok Hc; simpl; discriminate|].
+      destruct (N.eqb k pk_include).
+      { pool_touch_ok Hc. destruct (rv (pool_pl pl 0)) as [ins|er|] eqn:Et; [| |exfalso; exact (Hrv _ Et)].
+        - pool_touch_ok Hc.
+          match goal with |- context [pool_eval f rv g true ?ic ins gas0] =>
+            assert (Hp := IH true ic ins gas0); destruct (pool_eval f rv g true ic ins gas0) as [[r l] gas2] end.
+          cbn [fst]. apply pool_seq_no_garbage; [simpl; discriminate|]. apply Hp. apply pool_full_cset, pool_full_clone.
+        - destruct er; try (simpl; discriminate). destruct (N.eqb (pool_pl pl 1) 0); simpl; discriminate. }
+      destruct (N.eqb k pk_block); [pool_touch_ok Hc; apply IH; exact Hc|].
+      destruct (N.eqb k pk_macro); [pool_touch_ok Hc; simpl; discriminate|].
+      destruct (N.eqb k pk_call).
+      { pool_touch_ok Hc. destruct (rv (pool_pl pl 0)) as [mns|er|] eqn:Et; [|simpl; discriminate|exfalso; exact (Hrv _ Et)].
+        match goal with |- context [pool_eval f rv g true ?ic mns gas0] =>
+          assert (Hp := IH true ic mns gas0 (pool_full_cset _ _ _ (pool_full_new _ _)));
+          destruct (pool_eval f rv g true ic mns gas0) as [[r l1] gas2] end.
+        cbn [fst] in Hp. destruct r; try (simpl; discriminate); [|exfalso; apply Hp; reflexivity].
+        destruct (pool_find_macro mns (pool_pl pl 1)) as [body|]; [|simpl; discriminate].
+        pool_touch_ok Hc.
+        match goal with |- context [pool_eval f rv g false ?mc body gas2] =>
+          assert (Hq := IH false mc body gas2); destruct (pool_eval f rv g false mc body gas2) as [[r3 l3] gas3] end.
+        cbn [fst]. apply pool_seq_no_garbage; [simpl; discriminate|]. apply Hq.
+        do 3 apply pool_full_cset. apply pool_full_new. }
+      destruct (N.eqb k pk_if).
+      { pool_touch_ok Hc. destruct (pool_truthy _); [apply IH; exact Hc|simpl; discriminate]. }
+      simpl; discriminate. }
+    match goal with |- fst (fst (let '(this, gas1) := ?A in _)) <> _ => destruct A as [[r l] gas1] end.
+    cbn [fst] in HA. destruct r; cbn [fst]; try assumption; try discriminate.
+    assert (Hr := IH false c rest gas1 Hc). destruct (pool_eval f rv g false c rest gas1) as [[r2 l2] gas4].
+    cbn [fst] in *. apply (pool_seq_no_garbage (PROut out, l) (r2, l2)); [simpl; discriminate|exact Hr].
+Qed.
+
+Lemma pool_spec_resolve_not_bad st reg e n : pool_spec_resolve st reg e n <> PLBad.
+Proof.
+  unfold pool_spec_resolve, pool_reload_res. destruct (reg (e, n)); [discriminate|].
+  destruct (pool_assoc st (e, n)) as [src|]; [destruct (psrc_ok src)|]; discriminate.
+Qed.
+
+(* on every reachable state a render never meets a field that holds a left-over value, nor a template tree it
+   cannot follow: the reads of the machine are within ctx_fields_read_by_render, and those are assigned *)
+Lemma C01_render_reads_only_assigned_fields_proof : forall st orc g ops e n vars,
+  pool_render_obs pool_cfg_gen st orc g (pool_run pool_cfg_gen st orc g ops) e n vars <> POORender PRGarbage.
+Proof.
+  intros st orc g ops e n vars. rewrite pool_cfg_gen_safe, pool_render_obs_eq. intro H. inversion H as [H1]. clear H. revert H1.
+  unfold pool_render. rewrite pool_run_resolve.
+  destruct (pool_spec_resolve st (pool_last_reg ops) e n) as [ns|er|] eqn:E;
+    [|simpl; discriminate|exfalso; eapply pool_spec_resolve_not_bad; exact E].
+  apply (pool_seq_no_garbage (PROut [], [n])); [simpl; discriminate|].
+  apply pool_eval_no_garbage.
+  - intro m. rewrite pool_run_resolve. apply pool_spec_resolve_not_bad.
+  - apply pool_full_cset, pool_full_new.
+Qed.
+
 (* ------------------------------------------------------------------ a render leaves the template map and the trees alone *)
 Lemma pool_load_effect_cache st orc e s n : pool_inv st s ->
   let s' := pool_load_effect pool_cfg_safe st orc e s n in
@@ -866,9 +1006,10 @@ Lemma C01_pool_discipline_tables_proof :
   (* no node is released outside the pool files *)
   pool_cfg_gen = pool_cfg_safe /\
   (* every field of a pooled struct is assigned by its acquisition function or cleared by its release function;
-     the only field left to the release function alone is FunctionNode.moduleExpr *)
+     no field other than FunctionNode.moduleExpr is left to the release function alone *)
   flat_map pool_uncovered_fields pool_node_types = [] /\
-  flat_map pool_release_only_fields pool_node_types = [(b#"FunctionNode", b#"moduleExpr")] /\
+  forallb (fun x => bytes_eqb (fst x) b#"FunctionNode" && bytes_eqb (snd x) b#"moduleExpr")
+          (flat_map pool_release_only_fields pool_node_types) = true /\
   (* the bare map pools only ever receive emptied maps *)
   pool_map_puts <> [] /\ forallb (fun p => snd p) pool_map_puts = true /\
   (* Clone shares no map with its receiver *)
